@@ -6,18 +6,18 @@
 From Coq Require Import ZArith List Bool.
 Import ListNotations.
 
-(* numpy scalar types that NumpyTensorSpace.available_dtypes() offers (float128/
-   complex256 left out), plus the two non-numeric families *)
+(* numpy scalar types that NumpyTensorSpace.available_dtypes() offers incl.
+   float128/complex256), plus the two non-numeric families *)
 Inductive dtype := DBool | DInt8 | DInt16 | DInt32 | DInt64 | DUInt8 | DUInt16 | DUInt32 | DUInt64
-  | DFloat16 | DFloat32 | DFloat64 | DComplex64 | DComplex128 | DStr | DObj.
+  | DFloat16 | DFloat32 | DFloat64 | DComplex64 | DComplex128 | DStr | DObj | DFloat128 | DComplex256.
 
 Definition all_dtypes := [DBool; DInt8; DInt16; DInt32; DInt64; DUInt8; DUInt16; DUInt32; DUInt64;
-  DFloat16; DFloat32; DFloat64; DComplex64; DComplex128; DStr; DObj].
+  DFloat16; DFloat32; DFloat64; DComplex64; DComplex128; DStr; DObj; DFloat128; DComplex256].
 
 Definition dtype_idx (d : dtype) : Z :=
   match d with DBool => 0 | DInt8 => 1 | DInt16 => 2 | DInt32 => 3 | DInt64 => 4 | DUInt8 => 5
   | DUInt16 => 6 | DUInt32 => 7 | DUInt64 => 8 | DFloat16 => 9 | DFloat32 => 10 | DFloat64 => 11
-  | DComplex64 => 12 | DComplex128 => 13 | DStr => 14 | DObj => 15 end%Z.
+  | DComplex64 => 12 | DComplex128 => 13 | DStr => 14 | DObj => 15 | DFloat128 => 16 | DComplex256 => 17 end%Z.
 Definition dtype_eqb (a b : dtype) : bool := Z.eqb (dtype_idx a) (dtype_idx b).
 
 (* class family of a weighting object: NumpyTensorSpace*Weighting / ProductSpace*Weighting.
